@@ -37,7 +37,7 @@ fn scan_statics() -> Vec<String> {
         }
     }
     let mut files = vec![];
-    walk(std::path::Path::new("/repo/src"), &mut files);
+    walk(&std::path::Path::new(crate::drv::repo_root()).join("src"), &mut files);
     files.sort();
     for f in files {
         if let Ok(text) = std::fs::read_to_string(&f) {
@@ -75,6 +75,8 @@ pub fn run(report: &Report, thorough: bool) -> Evidence {
             (tiny.clone(), "ae:`.", d - 1, false, Some(store)),
         ];
         plans.push((real_db(), "aser", if thorough { 6 } else { 4 }, true, Some(store)));
+        // dictionary suggestions off (single-string mode): the last plan; marked by the alphabet "ak(.:`"
+        plans.push((tiny.clone(), "ak(.:`", d - 1, false, None));
         let mut total = HistStats::default();
         let ref_runs = AtomicU64::new(0);
         for (pi, (db, alpha, depth, english, init_store)) in plans.iter().enumerate() {
@@ -85,6 +87,7 @@ pub fn run(report: &Report, thorough: bool) -> Evidence {
             }
             let mut o = Opts::phonetic(db, "");
             o.english = *english;
+            o.psugg = *alpha != "ak(.:`";
             thread_local! {
                 static TWIN: std::cell::RefCell<Option<(String, Ctx)>> = const { std::cell::RefCell::new(None) };
                 static REF: std::cell::RefCell<HashMap<String, Result<Rend, String>>> = std::cell::RefCell::new(HashMap::new());
